@@ -298,11 +298,12 @@ theorem cubbyhole_private :
 /-- Policy scoping. A policy attached to a token of namespace `n` is parsed with `n`'s path prepended to every
 pattern (exact, prefix and segment-wildcard patterns alike; namespace names contain no '+'), so a non-root token
 allows a request only if the namespace-qualified request path `reqNs.path ++ rel` starts with `n`'s path; the "root"
-policy allows exactly the requests whose namespace is `n` or a descendant of `n`. Consequently a request whose
+policy allows the requests whose namespace is `n` or a descendant of `n`, or (repair of F101) whose qualified path starts
+with `n`'s path. Consequently a request whose
 qualified path does not start with the token's namespace path is denied. -/
 theorem policy_scoped_to_namespace (t : Tok) (reqNs rel : Bytes) (isList : Bool) (hns : CanonNs t.ns)
     (h : aclAllows t reqNs rel isList = true) :
-    (t.isRoot = true → hasParent reqNs t.ns = true) ∧ (t.isRoot = false → t.ns <+: reqNs ++ rel) :=
+    (t.isRoot = true → hasParent reqNs t.ns = true ∨ t.ns <+: reqNs ++ rel) ∧ (t.isRoot = false → t.ns <+: reqNs ++ rel) :=
   aclAllows_scope t reqNs rel isList hns h
 
 /-- Namespace-level scoping in the default configuration (no "."/".." segment anywhere in header ++ path — relative
@@ -323,11 +324,13 @@ theorem token_authorises_only_own_namespace_and_below (s : St) (t : Tok) (hdr pa
   have hlive_all : ∀ n ∈ liveNs s, n ∈ allNs s := fun n hn => (List.mem_filter.mp hn).1
   have hwt : WfNs t.ns := htp ▸ hwf tn (hlive_all tn htn)
   obtain ⟨hroot, hnon⟩ := aclAllows_scope t ns.path rel isList hwt.canon hacl
-  cases hr : t.isRoot with
-  | true => exact hroot hr
-  | false =>
-    have hpre := hnon hr
-    unfold resolveNs at hres
+  have hcase : hasParent ns.path t.ns = true ∨ t.ns <+: ns.path ++ rel := by
+    cases hr : t.isRoot with
+    | true => exact hroot hr
+    | false => exact Or.inr (hnon hr)
+  rcases hcase with hdone | hpre
+  · exact hdone
+  · unfold resolveNs at hres
     simp only at hres
     generalize hh : (if hdr = strOf "root/" then [] else hdr) = hdr' at hres hsafe hcons
     generalize hfull : hdr' ++ path = full at hres hsafe hcons
